@@ -107,6 +107,9 @@ ScenSingles ==
   \cup Scen({<<>>, <<ProdLSm>>}, {<<"prod">>, <<"batch">>, <<"none">>, <<"mid">>, <<"free">>, <<"prod", "batch">>},
           {<<>>, <<"prod">>}, {<<>>, <<3, 3>>})
   \cup Scen({<<>>, <<ProdLSm>>}, {<<>>}, {<<"prod">>, <<"mid">>, <<"batch">>, <<"prod", "batch">>}, {<<>>, <<3, 3>>})
+  \cup Scen({<<s>> : s \in Terminating(ShapesOf(KindsAll, {"Running", "Pending"}, {<<>>}))}, {<<>>}, {<<>>}, {<<>>, <<6>>})
+  \cup Scen({<<s>> : s \in ShapesOf({<<"prod", "LS">>, <<"prod", "LSE">>}, {"Running"}, {<<2>>, <<0, 2>>, <<-1>>, <<1, 7>>})
+                       \cup Terminating(ShapesOf({<<"prod", "LS">>}, {"Running"}, {<<1>>, <<1, 2>>}))}, {<<>>}, {<<>>}, {<<4, 2>>})
 \* thorough (MC_pairs.cfg): two pods, interaction of the sums
 ScenPairs ==
   Scen({<<s, t>> : s \in ShapesOf({<<"prod", "LS">>, <<"prod", "LSE">>}, {"Running"}, {<<>>}),
